@@ -14,12 +14,26 @@ impl Report {
     pub fn count(&mut self, k: &str) { *self.counters.entry(k.to_string()).or_insert(0) += 1; }
     pub fn add(&mut self, k: &str, n: u64) { *self.counters.entry(k.to_string()).or_insert(0) += n; }
     pub fn sample(&mut self, v: Value, max: usize) { if self.samples.len() < max { self.samples.push(v); } }
-    pub fn fail(&mut self, v: Value) { if self.oracle_failures.len() < 200 { self.oracle_failures.push(v); } self.count("oracle_failures_total"); }
+    pub fn fail(&mut self, v: Value) {
+        // keep at most 10 witnesses per (property, kind, class, stream) so that one frequent failure does not hide the others
+        let key = format!("failures.{}.{}.{}.{}", v.get("prop").and_then(|x| x.as_str()).unwrap_or("?"), v.get("kind").and_then(|x| x.as_str()).unwrap_or("?"), v.get("class").and_then(|x| x.as_str()).unwrap_or("-"), v.get("stream").and_then(|x| x.as_str()).unwrap_or("-"));
+        let seen = *self.counters.get(&key).unwrap_or(&0);
+        if seen < 10 && self.oracle_failures.len() < 600 { self.oracle_failures.push(v); }
+        self.count(&key);
+        self.count("oracle_failures_total");
+    }
     pub fn distinct_hash(&mut self, s: &str) {
         use std::hash::{Hash, Hasher};
         let mut h = std::collections::hash_map::DefaultHasher::new();
         s.hash(&mut h);
         self.distinct.insert(h.finish());
+    }
+    /// records the string and says whether it was new
+    pub fn distinct_hash_new(&mut self, s: &str) -> bool {
+        use std::hash::{Hash, Hasher};
+        let mut h = std::collections::hash_map::DefaultHasher::new();
+        s.hash(&mut h);
+        self.distinct.insert(h.finish())
     }
     pub fn write(&self, path: &str) {
         let mut m = Map::new();
